@@ -106,6 +106,7 @@ def main():
         for f in futs:
             results.append(f.result())
 
+    groups = {ob["name"]: ob.get("group") for _, ob in jobs}
     violations, harness_errors, known_hits = [], [], {}
     replays = 0
     for r in results:
@@ -135,8 +136,19 @@ def main():
             missing = [c for c in r.get("expect", []) if not any(k == c or k.startswith(c) for k in r.get("hist", {}))]
             if missing:
                 harness_errors.append(f"{r['name']}: vacuity: expected outcome classes never reached: {missing} (hist {r.get('hist')})")
-            if r.get("paths", 0) - r.get("skipped", 0) <= 0:
+            if r.get("paths", 0) - r.get("skipped", 0) <= 0 and not groups.get(r["name"]):
                 harness_errors.append(f"{r['name']}: vacuity: every path skipped")
+
+    # shards of one space (same group): at least one shard must have explored an in-bound path
+    by_group = {}
+    for r in results:
+        g = groups.get(r["name"])
+        if g and r.get("verdict") == "CONFIRMED":
+            by_group.setdefault(g, 0)
+            by_group[g] += max(r.get("paths", 0) - r.get("skipped", 0), 0)
+    for g, n in by_group.items():
+        if n == 0:
+            harness_errors.append(f"group {g}: vacuity: every path of every shard skipped")
 
     # ---- report
     n_ob = len(results)
